@@ -402,7 +402,33 @@ def correspondence(ctx):
     for ident, text, rep in kernel_alpha0(ctx, rng):
         if ctx.violation('C16 fails on the implementation: ' + text, dict(kind='alpha0', **rep), identity=ident):
             return
-    dist = dict(models={}, cones=0, energy=0, max_energy_err_cyl=0., max_energy_err_cone=0., min_eig=0.)
+    dist = dict(models={}, cones=0, energy=0, max_energy_err_cyl=0., max_energy_err_cone=0., min_eig=0., energy_sweep={})
+    # fixed sweep: every classical Donnell model, cylinder (and one cone), DISTINCT elastic restraint on every edge and direction
+    import random as _r
+    for model in ['clpt_donnell_bc1', 'clpt_donnell_bc2', 'clpt_donnell_bc3', 'clpt_donnell_bc4']:
+        for alphadeg in ([0.] if model == 'clpt_donnell_bc2' else [0., 25.]):
+            if alphadeg and not ctx.thorough() and model != 'clpt_donnell_bc4':
+                continue
+            restr = dict(kuBot=1.1e3, kuTop=2.3e3, kvBot=3.7e3, kvTop=0.9e3, kphixBot=5.e4, kphixTop=7.e4)
+            with contextlib.redirect_stdout(QUIET), np.errstate(all='ignore'):
+                ce = mk(model, _r.Random(1), alphadeg, s=200 if alphadeg else 79, m1=3, m2=2, n2=2, **restr)
+                ce._calc_linear_matrices(silent=True)
+                H = energy_hessian(ce)
+            k0e = ce.k0.toarray()
+            keep = np.setdiff1d(np.arange(k0e.shape[0]), ce.excluded_dofs)
+            Hu, ku = H[np.ix_(keep, keep)], k0e[np.ix_(keep, keep)]
+            dd = np.sqrt(np.abs(np.diag(Hu)))
+            dd[dd == 0] = 1.
+            err = float((np.abs(ku - Hu) / np.outer(dd, dd)).max())
+            dist['energy_sweep']['%s@%g' % (model, alphadeg)] = err
+            ctx.evaluations += 1
+            if err > (1e-4 if alphadeg else 1e-8):
+                k = np.unravel_index(np.argmax(np.abs(ku - Hu) / np.outer(dd, dd)), ku.shape)
+                if ctx.violation('C16 fails on the implementation: k0 of %s (alphadeg %g, distinct edge restraints %r) differs from the Hessian of '
+                                 'the strain energy of the package\'s own strain field + edge restraints: scaled error %.3e at free entry %r: '
+                                 'k0 %.6e vs d2U %.6e' % (model, alphadeg, restr, err, tuple(int(x) for x in k), ku[k], Hu[k]),
+                                 dict(kind='energy_sweep', model=model, alphadeg=alphadeg, restraints=restr)):
+                    return
     n = ctx.scale(14, 160)
     for k in range(n):
         case, props = impl_case(ctx, rng)
